@@ -487,7 +487,12 @@ Inductive op :=
 | OSort (t : nat) (n : name) (perm : list Z)
 | OConvert (t : nat) (conv : list (dtype * dtype)) (exc : list name)
 | OSetDtype (t : nat) (n : name) (dt : dtype)
-| OIndices (t : nat).
+| OIndices (t : nat)
+(* t[n] = src[m]: the ARRAY OBJECT of a column of one table is stored into another table (or the
+   same one).  __getitem__ returns the live column and __setitem__ / append_field store what they
+   are given, so this ALIASES the two columns.  It is not well-formed in the sense of op_wf
+   (P_Table.v): the theorems are about callers that hand in arrays of their own. *)
+| OSetItemFrom (t : nat) (n : name) (src : nat) (m : name).
 
 Definition copy_op (src : nat) (keep : option (list name)) : op := OCtorFrom src keep [] [].
 
@@ -523,6 +528,12 @@ Definition step (w : world) (p : op) : world * outcome :=
   | OConvert t conv exc => on1 w t (fun o => put_obj w t (convert_dtypes s o conv exc))
   | OSetDtype t n dt => on1 w t (fun o => put_obj w t (set_field_dtype s o n dt))
   | OIndices t => on1 w t (fun o => put_obj w t (get_indices s o))
+  | OSetItemFrom t n src m =>
+      on1 w t (fun o => on1 w src (fun a =>
+        match assoc m (fields a) with
+        | Some l => put_obj w t (setitem s o n l)
+        | None => (w, Raised KeyError)
+        end))
   end.
 
 Definition empty_world : world := mkworld [] [].
